@@ -58,7 +58,7 @@ def correspondence(ctx):
             (corr.spec_violations if cp > 0x10FFFF and impl_ != 'Disallowed' else corr.disagreements).append(
                 (case, impl_, 'VIOLATED:values above U+10FFFF must be Disallowed (asked right after a value with the same low bits)' if cp > 0x10FFFF else model))
     corr.count('order_dependent_probes', len(seqc))
-    if ctx.tier == 'thorough':
+    if ctx.requested_tier == 'thorough':      # not in an escalated quick run: on changed code the sweep can be arbitrarily slow
         # all 2^32 values, 16 threads: above the dump band everything must be Disallowed
         out = sh([HARNESS, 'rle', '--full', 'cls_id', 'cls_ff'], timeout=7200).stdout
         full = parse_rle_text(out)
